@@ -93,10 +93,15 @@ func (s *zzStore) bump() {
 	s.changed = make(chan struct{})
 }
 
-// lazy expiry against the clock; a guarded record (live tenure) is assumed to be renewed in time
+// lazy expiry; a guarded record (live tenure) is assumed to be renewed in time.
+// CLOCK=1: expiry is decided against the symbolic clock. CLOCK=0: time is abstracted away - an unguarded
+// record (orphan after a lost reply or a lost Delete) may lapse at any storage operation, by symbolic choice.
 func (s *zzStore) expire() {
 	if !s.present {
 		return
+	}
+	if vParam("CLOCK") == 0 {
+		return // time abstracted away: unguarded records are removed by a "lapse" thread (see unguard)
 	}
 	now := time.Now()
 	if s.guard == s.ver && !s.ownerDead {
@@ -109,6 +114,23 @@ func (s *zzStore) expire() {
 	if s.exp.Before(now) {
 		s.present = false
 		s.bump()
+	}
+}
+
+// unguard ends the no-expiry assumption for the current record. With the clock abstracted away an
+// environment thread removes the record at some later point chosen by the scheduler (its lease lapses).
+func (s *zzStore) unguard() {
+	s.guard = ""
+	if vParam("CLOCK") == 0 && s.present && !s.noExpiry {
+		v := s.ver
+		vSpawn("lapse", func() {
+			s.mu.Lock()
+			if s.present && s.ver == v && s.guard != v {
+				s.present = false
+				s.bump()
+			}
+			s.mu.Unlock()
+		})
 	}
 }
 
@@ -185,6 +207,10 @@ func (s *zzStore) Delete(ctx context.Context, key string) error {
 	defer s.mu.Unlock()
 	f := s.fault()
 	if f == 1 {
+		// the Delete of an Unlock is lost: the tenure is over, the record stays behind and may lapse
+		if s.present && s.guard == s.ver {
+			s.unguard()
+		}
 		return zzTransient
 	}
 	s.expire()
@@ -229,7 +255,7 @@ func (s *zzStore) WaitForVersionChange(ctx context.Context, key, ver string) err
 		}
 		ch := s.changed
 		var expC <-chan time.Time
-		if s.guard != s.ver || s.ownerDead {
+		if vParam("CLOCK") == 1 && (s.guard != s.ver || s.ownerDead) {
 			// an unguarded record lapses by itself: wake up when it does
 			expC = time.NewTimer(s.exp.Sub(time.Now()) + 1).C
 		}
@@ -267,6 +293,7 @@ type zzFuture struct {
 func (f *zzFuture) Cancel() { f.armed = false }
 
 var zzTimerStarts int
+var zzTimersArmed int
 var zzTimersDead bool
 
 func zzTimeoutCall(f func(), d time.Duration) timeout.Future {
@@ -274,9 +301,26 @@ func zzTimeoutCall(f func(), d time.Duration) timeout.Future {
 	if f == nil {
 		return fu
 	}
-	tm := time.NewTimer(d)
+	zzTimersArmed++
+	if zzTimersArmed > vParam("TIMERS") {
+		// bound of the exploration: at most TIMERS lease timers are ever armed; later ones never fire
+		return fu
+	}
+	var tmC <-chan time.Time
+	if vParam("CLOCK") == 1 {
+		tmC = time.NewTimer(d).C
+	}
 	vSpawn("lease-timer", func() {
-		<-tm.C
+		if tmC != nil {
+			<-tmC // with the clock abstracted away the timer may fire at any point the scheduler chooses
+		}
+		// hypothesis (DESIGN, observation 1): no goroutine is stalled for >= TTL/2 between timeout.Call and
+		// future.Store - a locker in the held state has stored its first future by the time a renewal fires
+		if zzW != nil {
+			for _, l := range zzW.lockers {
+				vAssume(l.lckCntr != 1 || l.future.Load() != nil)
+			}
+		}
 		if fu.armed && !zzTimersDead {
 			fu.armed = false
 			zzTimerStarts++
@@ -299,14 +343,19 @@ type zzWorld struct {
 	shutdownDone bool
 }
 
+var zzW *zzWorld
+
 func zzNewWorld(nProv, nLock, maxFaults int) *zzWorld {
 	w := &zzWorld{st: zzNewStore(maxFaults)}
+	zzW = w
 	for i := 0; i < nProv; i++ {
 		p := New("/locks/")
 		p.Storage = w.st
-		ttl := vInt64("leaseTTL")
-		vAssume(ttl >= 2 && ttl <= 1<<40)
-		p.leaseTTL = time.Duration(ttl)
+		if vParam("CLOCK") == 1 {
+			ttl := vInt64("leaseTTL")
+			vAssume(ttl >= 2 && ttl <= 1<<40)
+			p.leaseTTL = time.Duration(ttl)
+		}
 		w.provs = append(w.provs, p)
 	}
 	for i := 0; i < nLock; i++ {
@@ -327,7 +376,11 @@ func (w *zzWorld) attempt(t int, l *kvsLock, kinds int) bool {
 	ctx := zzNewCtx(w.nextCtx)
 	afterShutdown := w.shutdownDone
 	ok := false
-	switch vChoose("acquire", kinds) {
+	kind := vChoose("acquire", kinds)
+	if kinds == 3 && kind == 2 {
+		kind = 3 // quick tier: LockWithCtx / TryLock / LockWithCtx cancelled at any point
+	}
+	switch kind {
 	case 0: // LockWithCtx, never cancelled
 		err := l.LockWithCtx(ctx)
 		ok = err == nil
@@ -356,16 +409,13 @@ func (w *zzWorld) attempt(t int, l *kvsLock, kinds int) bool {
 		w.acquired(t)
 	} else if v, has := w.st.lastCreateBy[ctx.id]; has && w.st.guard == v {
 		// the attempt failed from the caller's view although its Create was applied (reply lost): orphan record
-		w.st.guard = ""
+		w.st.unguard()
 	}
 	return ok
 }
 
 func (w *zzWorld) release(l *kvsLock) {
 	w.holders--
-	if w.st.guard == w.st.ver {
-		w.st.guard = "" // the tenure ends: whatever is left in the storage may lapse
-	}
 	l.Unlock()
 }
 
@@ -375,8 +425,8 @@ func zzC01Mutex() {
 	nLock := vParam("LOCKERS")
 	w := zzNewWorld(vParam("PROVS"), nLock, vParam("FAULTS"))
 	w.acq = make([]int, N)
-	kinds := 5
-	if vParam("FAULTS") > 0 {
+	kinds := vParam("KINDS")
+	if vParam("FAULTS") > 0 && kinds > 4 {
 		kinds = 4 // Lock() panics by design on a storage error
 	}
 	fin := make([]chan struct{}, N)
@@ -394,6 +444,7 @@ func zzC01Mutex() {
 					holding = false
 				}
 			}
+			vReach("program-done")
 			close(fin[t])
 		})
 	}
